@@ -786,7 +786,7 @@ class DecimalRange(Range):
                 raise errors.RangeValueError("value must be decimal but is %s" % _compat.text_repr(value), location)
         else:
             value_as_decimal = value
-        if value_as_decimal.is_nan():
+        if not value_as_decimal.is_finite():
             raise errors.RangeValueError(
                 "value must be a number but is %s" % _compat.text_repr(str(value_as_decimal)), location
             )
